@@ -5,7 +5,7 @@
 use swc_ecma_ast::*;
 
 use crate::{
-    transform::operand_handler::{DefaultOperandHandler, OperandHandler},
+    transform::operand_handler::{is_literal_sum, DefaultOperandHandler, OperandHandler},
     visitor::{
         csi_methods::CsiMethods,
         ident_provider::{IdentKind, IdentProvider},
@@ -68,6 +68,11 @@ fn prepare_replace_expressions_in_binary(
     arguments: &mut Vec<ExprOrSpread>,
     ident_provider: &mut dyn IdentProvider,
 ) -> bool {
+    // literal-only sums ("a" + "b" + 1) are not instrumented
+    if is_literal_sum(&binary.left) && is_literal_sum(&binary.right) {
+        return false;
+    }
+
     let left_ident_mode = DefaultOperandHandler::get_ident_mode(&mut binary.right);
     DefaultOperandHandler::replace_expressions_in_expr(
         &mut binary.left,
